@@ -143,11 +143,9 @@ pub fn alphabet(pool: &[Op], thorough: bool) -> Vec<Step> {
                 }
                 for src in 0..2 {
                     for fault in [Fault::None, Fault::FailBefore, Fault::FailAfter(1), Fault::FailOnly(0)] {
-                        // the bulk error contract reports successes by id: with the same id
-                        // twice a partial failure is ambiguous, so that combination is left out
-                        if pool[a].key == pool[b].key && matches!(fault, Fault::FailAfter(_) | Fault::FailOnly(_)) {
-                            continue;
-                        }
+                        // (the same id twice combined with a partial failure used to be left
+                        // out: the bulk error contract reports successes by id, which was
+                        // ambiguous until fix F15 made the actor write one version per id)
                         let ops = vec![a, b];
                         let req = if del { Req::MultiDel { ops, src } } else { Req::MultiSet { ops, src } };
                         out.push(Step { req, fault });
@@ -155,15 +153,28 @@ pub fn alphabet(pool: &[Op], thorough: bool) -> Vec<Step> {
                 }
             }
         }
+        // the same id twice followed by a document with another id, the storage call failing
+        // at (or writing everything except) that last document: storage has then written both
+        // versions of the first id and reports it once per write - unambiguous, unlike a
+        // failure between the two versions (added after the seeded change C02-e)
+        for &a in &idx {
+            for &b in &idx {
+                if a == b || pool[a].key != pool[b].key {
+                    continue;
+                }
+                let Some(&c) = idx.iter().find(|c| pool[**c].key != pool[a].key) else { continue };
+                for fault in [Fault::FailAfter(2), Fault::FailOnly(2)] {
+                    let ops = vec![a, b, c];
+                    let req = if del { Req::MultiDel { ops, src: 1 } } else { Req::MultiSet { ops, src: 1 } };
+                    out.push(Step { req, fault });
+                }
+            }
+        }
         if thorough {
             for w in idx.windows(3) {
                 for order in [[0, 1, 2], [2, 1, 0], [1, 2, 0]] {
                     let ops: Vec<usize> = order.iter().map(|i| w[*i]).collect();
-                    let distinct_ids = ops.iter().map(|i| pool[*i].key).collect::<std::collections::BTreeSet<_>>().len() == 3;
                     for fault in [Fault::None, Fault::FailAfter(1), Fault::FailAfter(2), Fault::FailOnly(0), Fault::FailOnly(1)] {
-                        if !distinct_ids && matches!(fault, Fault::FailAfter(_) | Fault::FailOnly(_)) {
-                            continue;
-                        }
                         let req = if del { Req::MultiDel { ops: ops.clone(), src: 1 } } else { Req::MultiSet { ops: ops.clone(), src: 1 } };
                         out.push(Step { req, fault });
                     }
